@@ -43,7 +43,7 @@ CHECKS = {
    text="An independent AMF side protects every history of up to 3 (4) downlink messages over 25 operations (message x header type 0..4 x COUNT step +1/+2/+200/+255) for six algorithm pairs and five starting COUNTs, plus 800-message runs; the UE's NASDecode / GetNasPdu must return a message that re-encodes to exactly the protected plain bytes and its DL COUNT must equal the AMF's.",
    note="downlink plain messages hand-encoded from TS 24.501 clause 8; UE and AMF start from the same COUNT"),
  "C12": dict(cat="exploration", sec="5.12", tech="exhaustive enumeration of QoS-rule lengths, optional-IE subsets and bit-rate octet counts, plus all short tails / prefixes / substitutions under a watchdog in shard processes",
-   text="Accept messages built by hand per TS 24.501 8.3.2.1 (every QoS-rules length 0..1000/4000, all 2^9 optional-IE subsets in table order, IE length and value alphabets incl. octets equal to IEIs) and setup-request transfers encoded by the independent refper (every bit-rate octet count, TEID/address alphabets, IE subsets): the extractors must return exactly the encoded address/TEID/UPF; for termination every tail of <=4 octets over 12 symbols, every prefix and every single-octet substitution is run under a 10 s watchdog.",
+   text="Accept messages built by hand per TS 24.501 8.3.2.1 (every QoS-rules length 0..1000/4000, all 2^9 optional-IE subsets in table order, IE length and value alphabets incl. octets equal to IEIs) and setup-request transfers encoded by the independent refper (every bit-rate octet count, TEID/address alphabets, IE subsets): the extractors must return exactly the encoded address/TEID/UPF; for termination every tail of <=4 octets over 16 symbols, every prefix and every single-octet substitution is run under a 10 s watchdog.",
    note="a panic on malformed input counts as termination (per the property); EstablishPDU's return values are covered by C02"),
  "C01": dict(cat="model_checking", sec="5.1", tech="explicit-state reference AMF model executed against the real emulator process; deviation-bounded exhaustive enumeration of configuration x AMF choices",
    text="The unmodified main() and procedures run as a process against an explicit-state reference AMF (written from TS 38.413/24.501/33.501 on independent codecs) over a socketpair; every configuration/AMF-choice vector with <=1 (quick) / <=2 (thorough) deviations is executed; the model must accept every uplink message in its state and end with every UE REGISTERED, the process must exit 0 with the banner. Every model trace is by construction validated against the implementation; states and transitions of the model visited are counted.",
